@@ -130,6 +130,20 @@ func parseArg(tok string) (*pb.Arg, error) {
 			return pb.String(acct(name).addr.String() + rest), nil
 		}
 		return pb.String(strings.ReplaceAll(v, "\\_", " ")), nil
+	case "al": // al:<name>,<~name>,... : the accounts' addresses joined by commas, as a string argument (an admin list);
+		// ~name = the same address spelled in lower case (not the checksummed spelling the node uses for callers)
+		var as []string
+		for _, nm := range strings.Split(v, ",") {
+			if nm == "" {
+				continue
+			}
+			if strings.HasPrefix(nm, "~") {
+				as = append(as, strings.ToLower(acct(nm[1:]).addr.String()))
+			} else {
+				as = append(as, acct(nm).addr.String())
+			}
+		}
+		return pb.String(strings.Join(as, ",")), nil
 	case "u":
 		x, err := strconv.ParseUint(v, 10, 64)
 		if err != nil {
